@@ -137,6 +137,32 @@ def discharge_assert(an, body, t, blk=None):
                         good = ff if ne[1] == "Eq" else tt
                         if ne[1] in ("Eq", "Ne", "Gt") and body.edge_dominates((sb, good), blk):
                             return True, "divisor %s is non-zero here: guarded by the comparison at %s" % (dv[:80], body.line(sb))
+    if kind == "Overflow:Sub" and blk is not None and len(t["ops"]) == 2:
+        # guarded subtraction: `if a > b { a - b }` / `if a < b { .. } else { a - b }`
+        ca_, cb_ = canon(peel(an.op(body, t["ops"][0]), widen=True)), canon(peel(an.op(body, t["ops"][1]), widen=True))
+        for sb in sorted(body.live_blocks()):
+            st = body.term(sb)
+            if st["k"] != "switch" or sb == blk:
+                continue
+            ne, neg = strip_not(an.op(body, st["op"]))
+            if ne[0] != "binop" or ne[1] not in ("Gt", "Ge", "Lt", "Le"):
+                continue
+            x, y = canon(peel(ne[2], widen=True)), canon(peel(ne[3], widen=True))
+            be = bool_edges(st, neg)
+            if not be:
+                continue
+            tt, ff = be
+            good = None
+            if (x, y) == (ca_, cb_) and ne[1] in ("Gt", "Ge"):
+                good = tt
+            elif (x, y) == (ca_, cb_) and ne[1] in ("Lt",):
+                good = ff
+            elif (x, y) == (cb_, ca_) and ne[1] in ("Lt", "Le"):
+                good = tt
+            elif (x, y) == (cb_, ca_) and ne[1] in ("Gt",):
+                good = ff
+            if good is not None and body.edge_dominates((sb, good), blk):
+                return True, "subtraction guarded by the comparison at %s (minuend >= subtrahend on this path)" % body.line(sb)
     ops = [canon(peel(an.op(body, o)))[:120] for o in t["ops"]]
     return False, "%s not discharged: operand(s) %s are not compile-time constants in a safe range" % (kind, ops)
 
@@ -574,6 +600,10 @@ def progress_guard(an, prog, b, comp):
                 # leaving edge stays in the loop: not an exit
                 pass
             okm, whym = measures_progress(an, prog, b, sl, x, cs)
+            if not okm:
+                okm2, whym2 = length_decrease_guard(an, b, sl, t, cs)
+                if okm2:
+                    okm, whym = okm2, whym2
             if okm:
                 return True, "strict progress: back edge requires %s != 0 and %s" % (canon(peel(x))[:80], whym)
             return False, "guard `%s == 0` found but the measured value is not a recognised consumed-bytes count: %s" % (canon(peel(x))[:120], whym)
@@ -588,8 +618,117 @@ def all_paths_inside(b, cs, a, target):
     return True
 
 
+def _single_def_call(sl, l):
+    ds = sl.defs.get(l, [])
+    if len(ds) == 1 and ds[0][0] == "call":
+        return ds[0]
+    if len(ds) == 1 and ds[0][0] == "assign" and ds[0][3]["k"] == "use" and ds[0][3]["op"].get("k") in ("copy", "move") and not ds[0][3]["op"]["place"].get("p"):
+        return _single_def_call(sl, ds[0][3]["op"]["place"]["l"])
+    return None
+
+
+def length_decrease_guard(an, b, sl, switch_term, cs):
+    """Guard `len(X).saturating_sub(len(Y)) == 0 → exit` where Y is the loop-carried cursor as redefined in this
+    iteration and X a copy of its value taken before that redefinition: a non-zero difference means len(Y) < len(X),
+    so the cursor strictly shrinks on every iteration that continues (no assumption about the callee needed)."""
+    from ..mir import Callee
+    from .c02 import underlying_locals
+    # operand of the switch: Eq/Ne(x, 0) -> x local
+    op = switch_term["op"]
+    if op.get("k") not in ("copy", "move"):
+        return False, ""
+    d = _single_def_call(sl, op["place"]["l"])
+    cmp_ = None
+    for dd in sl.defs.get(op["place"]["l"], []):
+        if dd[0] == "assign" and dd[3]["k"] == "binop" and dd[3]["op"] in ("Eq", "Ne"):
+            cmp_ = dd[3]
+    if cmp_ is None:
+        return False, ""
+    xs = [o for o in (cmp_["a"], cmp_["b"]) if o.get("k") in ("copy", "move")]
+    if not xs:
+        return False, ""
+    sub = _single_def_call(sl, xs[0]["place"]["l"])
+    if sub is None:
+        return False, ""
+    t = sub[2]
+    c = Callee(t["func"]["fn"]) if t["func"].get("k") == "const" and "fn" in t["func"] else None
+    if c is None or not c.is_(*SAT_SUB) or len(t["args"]) != 2:
+        return False, ""
+    sides = []
+    for a in t["args"]:
+        if a.get("k") not in ("copy", "move"):
+            return False, ""
+        lc = _single_def_call(sl, a["place"]["l"])
+        if lc is None:
+            return False, ""
+        cc = Callee(lc[2]["func"]["fn"]) if lc[2]["func"].get("k") == "const" and "fn" in lc[2]["func"] else None
+        if cc is None or not cc.is_(*LEN):
+            return False, ""
+        a0 = lc[2]["args"][0]
+        if a0.get("k") not in ("copy", "move"):
+            return False, ""
+        sides.append(underlying_locals(sl, a0["place"]["l"]))
+    # walk each side back to the loop-carried cursor local (defined both outside and inside the loop)
+    def carried(l):
+        ds = sl.defs.get(l, [])
+        return any(d_[1] in cs for d_ in ds) and (any(d_[1] not in cs for d_ in ds) or l <= b.arg_count)
+
+    def chain_to_carried(l, depth=0):
+        """-> (carried local, (block, stmt index) where its value was read) or None"""
+        if depth > 8:
+            return None
+        if carried(l):
+            return None
+        ds = sl.defs.get(l, [])
+        if len(ds) != 1 or ds[0][0] != "assign":
+            return None
+        rv = ds[0][3]
+        src = None
+        if rv["k"] in ("ref", "copyforderef"):
+            src = rv["place"]["l"]
+        elif rv["k"] == "use" and rv["op"].get("k") in ("copy", "move"):
+            src = rv["op"]["place"]["l"]
+        if src is None:
+            return None
+        if carried(src):
+            return (src, (ds[0][1], ds[0][2]))
+        return chain_to_carried(src, depth + 1)
+
+    a_l = t["args"]
+    heads = []
+    for a in a_l:
+        lc = _single_def_call(sl, a["place"]["l"])
+        a0 = lc[2]["args"][0]["place"]["l"]
+        heads.append(chain_to_carried(a0))
+    if not heads[0] or not heads[1] or heads[0][0] != heads[1][0]:
+        return False, "the two lengths are not taken from the same loop-carried cursor"
+    cur = heads[0][0]
+    redefs = [(d_[1], d_[2] if d_[0] == "assign" else 10**6) for d_ in sl.defs.get(cur, []) if d_[1] in cs]
+    if len(redefs) != 1:
+        return False, "the loop cursor is redefined at %d places inside the loop" % len(redefs)
+    rb, ri = redefs[0]
+    (xb, xi), (yb, yi) = heads[0][1], heads[1][1]
+    before = (xb != rb and b.block_dominates(xb, rb)) or (xb == rb and xi < ri)
+    after = (yb != rb and b.block_dominates(rb, yb)) or (yb == rb and yi > ri)
+    if before and after:
+        return True, "it is len(cursor at iteration start) ⊖ len(cursor after the record): non-zero implies the cursor got strictly shorter"
+    return False, "the 'before' length is not read before, or the 'after' length not after, the cursor's redefinition"
+
+
 def measures_progress(an, prog, b, sl, x, cs):
     x = peel(x)
+    # direct form: taken = len(cursor_before).saturating_sub(len(cursor_after)), cursor_after = a parser remainder of cursor_before
+    if x[0] == "call" and x[2] is not None and x[2].is_(*SAT_SUB) and len(x[3]) == 2:
+        l0, l1 = peel(x[3][0]), peel(x[3][1])
+        if l0[0] == "call" and l0[2] is not None and l0[2].is_(*LEN) and l1[0] == "call" and l1[2] is not None and l1[2].is_(*LEN):
+            before, after = peel(l0[3][0]), peel(l1[3][0])
+            derived = after[0] == "tfield" and after[2] == 0 and after[1][0] == "ok" and peel(after[1][1])[0] == "call" and \
+                any(canon(peel(a)) == canon(before) or (peel(a)[0] == "cycle") for a in peel(after[1][1])[3])
+            if not derived and after[0] == "phi":
+                derived = any(m_[0] == "tfield" and peel(m_)[1][0] == "ok" for m_ in [peel(z) for z in after[1]])
+            if derived:
+                return True, "it equals len(cursor before) − len(cursor after) where the cursor after is the parser remainder of the cursor before"
+            return False, "len difference of two slices that are not (cursor, its parser remainder): %s vs %s" % (canon(before)[:80], canon(after)[:80])
     # x = ok(try_fold(iter, (cur, 0), clo)).k
     if not (x[0] == "tfield" and x[1][0] == "ok"):
         return False, "not a component of a fold result"
